@@ -64,8 +64,20 @@ def addOrReplaceOpt (m : Msg) : Msg :=
   let (_, ar) := popEDNS0 m.additionals
   { m with additionals := ar ++ [newEDNS0 udpSize []] }
 
-/-- `dnsmsg.RemoveEDNS0` / the `PopEDNS0` + release in handleReqMsg -/
+/-- the `PopEDNS0` + release in handleReqMsg (one OPT of the additional section, swap-remove) -/
 def removeEDNS0 (m : Msg) : Msg := { m with additionals := (popEDNS0 m.additionals).2 }
+
+/-- `removeOpt`: the records that are not OPT, order kept -/
+def removeOpt (rs : List Resource) : List Resource := rs.filter (fun r => r.rtype != typeOPT)
+
+/-- `dnsmsg.RemoveEDNS0` (called by `forward` on every upstream reply): every OPT record of every section goes -/
+def stripOpt (m : Msg) : Msg :=
+  { m with answers := removeOpt m.answers, authorities := removeOpt m.authorities, additionals := removeOpt m.additionals }
+
+/-- `queryOpt(m) != nil`: the query has an OPT record in some section -/
+def queryHasOptAny (m : Msg) : Bool :=
+  m.additionals.any (fun r => r.rtype == typeOPT) || m.authorities.any (fun r => r.rtype == typeOPT)
+    || m.answers.any (fun r => r.rtype == typeOPT)
 
 /-! ### names -/
 def lowerByte (b : UInt8) : UInt8 := if 65 ≤ b.toNat ∧ b.toNat ≤ 90 then UInt8.ofNat (b.toNat + 32) else b
@@ -169,7 +181,7 @@ def handleReq (env : Env) (q : Question) : Msg × Nat × List (Nat × Bytes) :=
         | .ok wire =>
           match env.ups[u]? with
           | some (.reply resp) =>
-            if isRespOfQuestion resp q then (removeEDNS0 resp, i, [(u, wire)])
+            if isRespOfQuestion resp q then (stripOpt resp, i, [(u, wire)])
             else (makeEmptyResp q rcodeServFail, i, [(u, wire)])
           | _ => (makeEmptyResp q rcodeServFail, i, [(u, wire)])
         | _ => (makeEmptyResp q rcodeServFail, i, [])
@@ -184,7 +196,7 @@ def handle (env : Env) (m : Msg) : Out :=
       | q0 :: _ =>
         let q : Question := { q0 with name := lowerName q0.name }
         let (resp, idx, fw) := handleReq env q
-        let clientEDNS0 := m.additionals.any (fun r => r.rtype == typeOPT)
+        let clientEDNS0 := queryHasOptAny m
         let resp := if clientEDNS0 then addOrReplaceOpt resp else removeEDNS0 resp
         (resp, idx, fw)
       | [] => (makeEmptyRespM m rcodeNotImp, 0, [])
